@@ -43,6 +43,9 @@ class Ctx:
         self.rundir = os.path.join(BUILD, "run", pid)
         os.makedirs(self.rundir, exist_ok=True)
         os.makedirs(REPLAY, exist_ok=True)
+        for fn in os.listdir(REPLAY):          # replays of earlier runs of this property are stale
+            if fn.startswith(pid + "-"):
+                os.remove(os.path.join(REPLAY, fn))
         self.notes = []
         self.known_lines = []
         self.violations = []   # (replay_path, suffix)
